@@ -287,6 +287,11 @@ class Guard:
         if s in self.b:
             return self.var(self.b[s], "bool")
         k = n.get("kind")
+        if k == "DeclRefExpr" and (n.get("referencedDecl", {}) or {}).get("kind") == "VarDecl" \
+           and n["referencedDecl"].get("name") in self.cn.env:
+            return self.bt(self.cn.env[n["referencedDecl"]["name"]])      # a local initialised once: its initialiser
+        if k in ("CXXConstructExpr",) and len(kids(n)) == 1:
+            return self.bt(kids(n)[0])
         if k == "BinaryOperator" and n.get("opcode") in ("&&", "||"):
             a, b = kids(n)
             return "(%s %s %s)%%bool" % (self.bt(a), n["opcode"], self.bt(b))
